@@ -382,6 +382,20 @@ func TestPlanted(t *testing.T) {
 }
 
 func TestReplay(t *testing.T) {
+	if strings.Contains(evid.ReplayTest(), "TestPackageOptionConsistency") {
+		var pc PkgOptCase
+		ok, err := evid.ReplayCase(&pc)
+		if !ok {
+			t.Skip("no VERIF_REPLAY")
+		}
+		if err != nil {
+			t.Fatal(err)
+		}
+		r := evid.R()
+		defer r.Begin(t)()
+		runPkgOpts(context.Background(), t, r, &pc)
+		return
+	}
 	var c Case
 	ok, err := evid.ReplayCase(&c)
 	if !ok {
